@@ -104,4 +104,26 @@ CHECKS = {
         note="Trusted: sre finditer semantics.  Not decided: that the tag "
              "sub-regexes dissect every tag the way a reader expects "
              "(value-level); '<!--?' stripping."),
+    "C04": dict(
+        technique="constant-table comparison; abstract interpretation of the "
+                  "pipe emitter (try/except nesting); path enumeration of "
+                  "lookup helpers; linearity (use-count vs Cache enclosure) "
+                  "over the node-construction tree; exhaustiveness of "
+                  "binding-construct handlers",
+        text="Decides the prefix->expression-class table, the default type "
+             "and that the pipe operator catches exactly the five lookup-type "
+             "exception classes; that alternatives nest right-associatively "
+             "as try/except over that tuple with the last one unguarded, no "
+             "bare handler and no finally; that attribute access is tried "
+             "before item access and failures re-raise the original "
+             "AttributeError; that builtins are only defaults of context "
+             "lookups; that every Value/Negate object used in two or more "
+             "node positions is enclosed by a Cache listing it and the "
+             "transformer consults its cache first (evaluate once); that "
+             "emitters evaluate only their own node's expressions; that "
+             "lambda/comprehension binders have scope-aware, inheriting "
+             "handlers in the name rewriter.",
+        note="Which alternative of a concrete pipe wins, and evaluation "
+             "order inside one tal:attributes list, are value-level / not "
+             "claimed.  Known finding: ':=' has no handler."),
 }
